@@ -201,18 +201,24 @@ impl ProtocolRequestBuilder for crate::Request {
             vec![]
         };
 
+        let mut headers: Vec<HttpHeader> = self
+            .iter()
+            .flat_map(|(name, values)| {
+                values.iter().map(|value| HttpHeader {
+                    name: name.to_string(),
+                    value: value.to_string(),
+                })
+            })
+            .collect();
+        // The header map iterates in an arbitrary, randomly seeded order. Sort by name so the
+        // same request always produces the same effect (the sort is stable, so the values
+        // of one header keep their order).
+        headers.sort_by(|a, b| a.name.cmp(&b.name));
+
         Ok(HttpRequest {
             method: self.method().to_string(),
             url: self.url().to_string(),
-            headers: self
-                .iter()
-                .flat_map(|(name, values)| {
-                    values.iter().map(|value| HttpHeader {
-                        name: name.to_string(),
-                        value: value.to_string(),
-                    })
-                })
-                .collect(),
+            headers,
             body,
         })
     }
